@@ -214,3 +214,11 @@ CLAIMS['C17']['text'] += (' Round 9: LOOKUP-UNWRAP - inside the callbacks of a c
                           'the one site without either was defect F15 (fixed in /repo). Other unwrap / expect calls in the streaming cone '
                           'are not decided.')
 CLAIMS['C17']['technique'] += '; dominance of table-lookup unwraps by fill / sentinel tests'
+CLAIMS['C08']['text'] += (' Round 9: ACTIVE-CLEARED - the splitter that remembers an active mapping resets the state it tests before '
+                          'delivering on both outcomes of the "is the text empty" test (a zero-width segment must not stay active past '
+                          'the segment that closes it).')
+CLAIMS['C08']['technique'] += '; must-clear path analysis of the active-mapping state'
+CLAIMS['C15']['text'] += (' Round 9: JSON-SKIP also decides the skip predicate of the list-valued field (sourcesContent): it must be '
+                          'recognisably "every entry is empty" (`iter().all(is_empty)` / `!iter().any(!is_empty)`, optionally after an '
+                          'early true for the empty list); an existential or first-entry test drops content on the round trip; any other '
+                          'shape is reported as an unrecognised idiom (fail-closed, DESIGN 7).')
